@@ -75,7 +75,7 @@ fn trim_case(v: &Value) -> Value {
 }
 
 /// Parses the interesting part of a dead worker's stderr
-fn death_signature(stderr: &str, status: &std::process::ExitStatus, case: &Value) -> (String, Value) {
+pub fn death_signature(stderr: &str, status: &std::process::ExitStatus, case: &Value) -> (String, Value) {
     use std::os::unix::process::ExitStatusExt;
     let signal = status.signal();
     let mut kind = "crash".to_string();
@@ -288,7 +288,13 @@ fn run_shard(
                         // phase deadline: the case was not completed
                         shared.agg.lock().unwrap().phases.entry(phase.name.into()).or_default().not_run += 1;
                     } else {
-                        let mut r = CaseResult::inconclusive(0, format!("wall-clock watchdog ({} s) fired", phase.case_timeout_s));
+                        // keep the case for inspection (it is not a verdict)
+                        let dir = format!("{}/replays/{}", crate::verif_dir(), prop.id());
+                        let _ = std::fs::create_dir_all(&dir);
+                        let path = format!("{}/timeout-{}-{}.json", dir, phase.name, idx);
+                        let doc = json!({"property": prop.id(), "tier": tier.name(), "seed": seed, "phase": phase.name, "build": phase.build.name(), "idx": idx, "case": case, "message": "wall-clock watchdog fired (inconclusive)", "signature": {"kind": "watchdog"}});
+                        let _ = std::fs::write(&path, serde_json::to_string_pretty(&doc).unwrap());
+                        let mut r = CaseResult::inconclusive(0, format!("wall-clock watchdog ({} s) fired; case kept in {}", phase.case_timeout_s, path));
                         r.stat("watchdog_timeouts", 1);
                         shared.agg.lock().unwrap().phases.entry(phase.name.into()).or_default().timeouts += 1;
                         record(shared, phase, idx, case, r);
@@ -611,4 +617,30 @@ pub fn replay(path: &str) -> i32 {
         return 1;
     }
     0
+}
+
+/// Runs one case in a child process and returns its result (a death becomes a violation with the
+/// death signature). Used by the reducer for cases that kill the process.
+pub fn run_case_in_child(doc: &Value) -> CaseResult {
+    let dir = format!("{}/harness/target/run", crate::verif_dir());
+    let _ = std::fs::create_dir_all(&dir);
+    let path = format!("{}/reduce-{}.json", dir, std::process::id());
+    std::fs::write(&path, doc.to_string()).expect("write case");
+    let exe = std::env::current_exe().unwrap();
+    let out = Command::new(exe).args(["worker-one", &path]).env("RUST_BACKTRACE", "0").output().expect("spawn");
+    let stdout = String::from_utf8_lossy(&out.stdout);
+    let stderr = String::from_utf8_lossy(&out.stderr);
+    for l in stdout.lines() {
+        if let Some(rest) = l.strip_prefix(MAGIC) {
+            let mut it = rest.splitn(3, ' ');
+            if it.next() == Some("E") {
+                let _ = it.next();
+                if let Ok(v) = serde_json::from_str::<Value>(it.next().unwrap_or("null")) {
+                    return CaseResult::from_json(&v);
+                }
+            }
+        }
+    }
+    let (detail, sig) = death_signature(&stderr, &out.status, &doc["case"]);
+    CaseResult::violation(0, detail, sig)
 }
